@@ -62,6 +62,7 @@ RESTS = {
     "fint_range": "`Gen.fint_range`: `ZMod.val_lt`",
     "fofint_fint": "`Gen.fofint_fint`: `ZMod.val_intCast`, `Int.emod_eq_of_lt`",
     "fofint_wide": "`Gen.fofint_wide`: `push_cast; ring`",
+    "fofint_lin": "`Gen.fofint_lin`: `push_cast; ring`",
     "fermat_inv": "`Secp.fermat_inv` (F1) via `Gen.fermat_inv`; " + PRIME_P,
     "sqrt_ratio_one": "`Secp.sqrt_ratio_3mod4` (S1) at v = 1 (Z = c2 = 0, only the first conjunct is used); " + PRIME_P,
     "glue_add_n": "`Gen.glue_add`",
